@@ -108,6 +108,8 @@ class Engine:
         M = self.M
         name = key[1]
         name = M.aliases.get(name, name)
+        ext = getattr(self, 'extern', {}).get(name)
+        if ext is not None: return ext(self, st, name)
         if name in M.funcs or name in self.stubs or name not in M.globals:
             o = Obj(0, name); o.func = name; return o
         txt = M.globals[name]
@@ -274,7 +276,9 @@ class Engine:
                 sh = z3.ZeroExt(r.esz*8-8, bv(sub, 8)) * 8
                 return simp(z3.Extract(nbytes*8-1, 0, z3.LShR(bv(w, r.esz*8), sh)))
             raise Unsupported("symbolic load wider than region element")
-        raise Unsupported(f"load at symbolic offset in object '{o.name}' without array region")
+        if o.func is not None: raise Violation('bad-pointer', "load through function pointer")
+        off = self.concretize(st, off, f"symbolic offset into object '{o.name}'")
+        return self.load(st, Ptr(p.obj, off), nbytes, isptr)
 
     def _load_bytes(self, st, o, off, nbytes, isptr):
         bs = []
@@ -344,7 +348,8 @@ class Engine:
             idx, sub = self._region_idx(st, r, off, nbytes, 'store')
             if nbytes == r.esz: r.put(idx, v); return
             raise Unsupported("symbolic sub-element store")
-        raise Unsupported(f"store at symbolic offset in object '{o.name}' without array region")
+        off = self.concretize(st, off, f"symbolic offset into object '{o.name}'")
+        return self.store(st, Ptr(p.obj, off), nbytes, v)
 
     def _split_cell(self, o, k):
         sz, val = o.cells.pop(k)
